@@ -1,6 +1,6 @@
 (* pqref commands for Impl/Paths.v and Dataset/Merge.v (C14). *)
 From Coq Require Import NArith ZArith List String Ascii Bool.
-From Pq Require Import Base.Bytes Impl.Partition Impl.Paths Dataset.Merge Extract.Sx Extract.Cmd_Partition.
+From Pq Require Import Base.Bytes Impl.Partition Impl.Paths Dataset.Merge Dataset.CatRead Dataset.CatGuard Extract.Sx Extract.Cmd_Partition.
 Import ListNotations.
 Open Scope string_scope.
 
@@ -56,5 +56,20 @@ Definition h_merge (a : list sx) : sx :=
   | _ => err "arity"
   end.
 
+(* (cat_guard (label ...) (((dict-label ...)? (code ...)) ...)) -> 1 when every code that occurs means the same label under
+   its own dictionary and under the dictionary read last (Dataset/CatGuard.v); codes are integers, -1 = NULL *)
+Definition as_code_p (s : sx) : option (option nat) :=
+  match s with SZ z => Some (if (z <? 0)%Z then None else Some (Z.to_nat z)) | _ => None end.
+Definition h_cat_guard (a : list sx) : sx :=
+  match a with
+  | [init; chunks] =>
+    match as_list_of as_N init,
+          as_list_of (as_pair (as_opt (as_list_of as_N)) (as_list_of as_code_p)) chunks with
+    | Some init, Some chunks => sbool (guard_b init chunks)
+    | _, _ => err "args"
+    end
+  | _ => err "arity"
+  end.
+
 Definition table : list (string * handler) :=
-  [("analyse_paths", h_analyse_paths); ("merge", h_merge)].
+  [("analyse_paths", h_analyse_paths); ("merge", h_merge); ("cat_guard", h_cat_guard)].
